@@ -24,8 +24,8 @@ Rearm(ds) == IF Deadlines(ds) = {} THEN [armed |-> FALSE, next |-> 0] ELSE [arme
 Do(op, c, k, e) ==
     LET d == docs[c][k]
         nd == After(d, op, e)
-        newdocs == [docs EXCEPT ![c][k] = nd]
-        event == nd # d /\ (op # "Touch" \/ TouchArms) IN
+        newdocs == AfterAll(docs, op, c, k, e)
+        event == op # "Recreate" /\ nd # d /\ (op # "Touch" \/ TouchArms) IN
     /\ now = 0 /\ nops < MaxOps
     /\ docs' = newdocs
     /\ timer' = IF op = "Reopen" THEN Rearm(docs) ELSE IF event THEN Arm(timer, nd.dl) ELSE timer
